@@ -4,6 +4,7 @@ import (
 	"encoding/json"
 	"errors"
 	"fmt"
+	libbytes "github.com/jsightapi/jsight-schema-go-library/bytes"
 	"io"
 	"strings"
 	"testing"
@@ -91,9 +92,21 @@ func events(in []byte, before ...string) (evs []lex.Ev, msg string) {
 	d := libjson.New("doc", in)
 	// what a consumer does with the token it was handed is its own business: appending to it (to
 	// join tokens, to terminate them) must not reach the text the events are read from
-	scribble := func(v []byte) {
+	scribble := func(v libbytes.Bytes) {
 		if len(v) > 0 {
+			_ = append(v, ';')
 			_ = append(v, ';', '0')
+			// ... and so for the views of the token the library offers: without its quotes, without
+			// its brackets, without the blanks around it
+			if u := v.Unquote(); len(u) > 0 {
+				_ = append(u, '!')
+			}
+			if u := v.TrimSquareBrackets(); len(u) > 0 {
+				_ = append(u, '!')
+			}
+			if u := v.TrimSpaces(); len(u) > 0 {
+				_ = append(u, '!')
+			}
 		}
 	}
 	conv := func(typ string, begin, end int, value func() []byte) (lex.Ev, string) {
